@@ -1,5 +1,6 @@
 import TriompheModel.Props.Gates
-import TriompheModel.Model.Ops
+import TriompheModel.Proofs.HistCow
+import TriompheModel.Props.C03
 /-!
 # C08 — copy-on-write: a write through make_mut is never seen through another handle
 
@@ -57,5 +58,41 @@ theorem C08_shared_redirects (m : Mem) (a : HV) (hu : Arc.is_unique m a = false)
     (Arc.new (cloneValue m a.blk).1 a.ty (cloneValue m a.blk).2).2, rfl, rfl, ?_, ?_⟩
   · simp [Arc.new, allocBlock]
   · simp [Arc.make_mut, hu]
+
+/-! ### after any history -/
+
+/-- **every other handle keeps observing the old, unmodified value**: whatever `make_mut` does
+(in-place write for a sole owner, redirect + write for a shared handle, or a panic in `Clone`), every
+OTHER slot keeps its handle value and sees exactly the contents it saw before — for co-owners of any
+kind, leaked raw pointers included. -/
+theorem C08_others_unchanged (ops : List M1.Op) (src v : Nat) (cp : Bool) (h : HV)
+    (hs : lookup (M1.run ops) src = some h) (hc : (h.kind = .arc ∧ h.ty = .sized) ∨ h.kind = .offset)
+    (i : Nat) (hv : HV) (hne : i ≠ src) (hl : lookup (M1.run ops) i = some hv) :
+    lookup (step (M1.run ops) (.makeMut src v cp)).1 i = some hv ∧
+    digest (step (M1.run ops) (.makeMut src v cp)).1.mem hv = digest (M1.run ops).mem hv :=
+  makeMut_frame (M1.run ops) src v cp h (inv_run ops) hs hc i hv hne hl
+
+theorem C08_others_unchanged_make_unique (ops : List M1.Op) (src v : Nat) (cp : Bool) (h : HV)
+    (hs : lookup (M1.run ops) src = some h) (hc : h.kind = .arc ∧ h.ty = .sized)
+    (i : Nat) (hv : HV) (hne : i ≠ src) (hl : lookup (M1.run ops) i = some hv) :
+    lookup (step (M1.run ops) (.makeUnique src v cp)).1 i = some hv ∧
+    digest (step (M1.run ops) (.makeUnique src v cp)).1.mem hv = digest (M1.run ops).mem hv :=
+  makeUnique_frame (M1.run ops) src v cp h (inv_run ops) hs hc i hv hne hl
+
+/-- **shared ⇒ the previous allocation loses exactly one owner and the handle now solely owns a fresh
+block** (`owners ≠ 1` is "another owning handle of any kind exists", by the invariant) -/
+theorem C08_shared_owner_accounting (ops : List M1.Op) (src v : Nat) (h : HV)
+    (hs : lookup (M1.run ops) src = some h) (hc : (h.kind = .arc ∧ h.ty = .sized) ∨ h.kind = .offset)
+    (hsh : owners (M1.run ops) h.blk ≠ 1) :
+    owners (step (M1.run ops) (.makeMut src v false)).1 h.blk = owners (M1.run ops) h.blk - 1 ∧
+    owners (step (M1.run ops) (.makeMut src v false)).1 (M1.run ops).mem.blocks.length = 1 ∧
+    ∃ h', lookup (step (M1.run ops) (.makeMut src v false)).1 src = some h' ∧ h'.blk = (M1.run ops).mem.blocks.length :=
+  makeMut_shared_owners (M1.run ops) src v h (inv_run ops) hs hc hsh
+
+/-- **sole owner ⇔ in place**: with the invariant, `is_unique` is `owners = 1` -/
+theorem C08_sole_owner_in_place (ops : List M1.Op) (src : Nat) (h : HV) (cp : Bool)
+    (hs : lookup (M1.run ops) src = some h) (ho : owners (M1.run ops) h.blk = 1) :
+    Arc.make_mut (M1.run ops).mem h cp = ((M1.run ops).mem, some h) :=
+  C08_unique_in_place _ _ _ ((M1.C03H.C03_verdict_iff_sole_owner ops src h hs).2 ho)
 
 end C08
